@@ -5,15 +5,22 @@ import (
 	"os"
 
 	"cuelang.org/go/cue/cuecontext"
+	"cuelang.org/go/cue/format"
+	"cuelang.org/go/cue/load"
+	"cuelang.org/go/tools/trim"
 )
 
 func main() {
 	ctx := cuecontext.New()
-	for _, src := range os.Args[1:] {
-		v := ctx.CompileString(src)
-		var x any
-		err := v.Decode(&x)
-		i, ierr := v.Int64()
-		fmt.Printf("== %s\n  Decode=%T %v err=%v  Int64=%v err=%v\n", src, x, x, err, i, ierr)
-	}
+	src, _ := os.ReadFile(os.Args[1])
+	cfg := &load.Config{Dir: "/virt", Overlay: map[string]load.Source{"/virt/x.cue": load.FromBytes(src)}}
+	insts := load.Instances([]string{"x.cue"}, cfg)
+	inst := insts[0]
+	fmt.Println("load err", inst.Err)
+	v := ctx.BuildInstance(inst)
+	fmt.Println("err", v.Err())
+	err := trim.Files(inst.Files, v, &trim.Config{})
+	fmt.Println("trim err", err)
+	b, _ := format.Node(inst.Files[0])
+	fmt.Println(string(b))
 }
